@@ -542,6 +542,19 @@ package smtp
 //@   ensures @C08 the-session-is-logged-out-on-the-way: recovered() && old(c.session) != nil ==> old(c.session).loggedOut && c.cbLogout == old(c.cbLogout) + 1
 //@   ensures @C07 an-open-transfer-is-aborted: recovered() && old(c.bdatPipe) != nil && old(old(c.bdatPipe).state) == 0 ==> old(c.bdatPipe).state == 1
 
+//@ contract (*Conn).Reject(c)
+//@   prop C04 C08
+//@   requires c != nil && c.server != nil && c.conn != nil && c.text != nil && sessOK(c)
+//@   modifies c.replies, c.finals, c.lastCode, c.bdatPipe, c.session, c.closed, c.cbLogout
+//@   modifies c.bdatPipe.state if c.bdatPipe != nil
+//@   modifies c.session.loggedOut if c.session != nil
+//@   ensures @C08,C04 a-rejected-connection-is-answered-421-and-given-up: c.closed && c.session == nil && c.lastCode == 421 && c.finals == old(c.finals) + 1
+
+//@ contract (*SMTPError).Temporary(err) (r)
+//@   prop C17
+//@   requires err != nil
+//@   ensures @C17 the-class-of-the-code-decides: r == (err.Code >= 400 && err.Code <= 499)
+
 //@ contract (*Conn).greet(c)
 //@   prop C04
 //@   requires c != nil && c.server != nil && c.conn != nil && c.text != nil && replyText(c.server.Domain)
@@ -857,7 +870,12 @@ package smtp
 //@   prop C10
 //@   requires conn != nil
 //@   fresh c
-//@   ensures c != nil && c.conn == conn && c.text != nil && clientWF(c) && !c.didHello && c.text.cmds == 0
+//@   ensures c != nil && c.conn == conn && c.text != nil && clientWF(c) && !c.didHello && c.text.cmds == 0 && len(c.rcpts) == 0 && !c.lmtp
+
+//@ contract NewClientLMTP(conn) (c)
+//@   prop C18
+//@   requires conn != nil
+//@   ensures @C18 an-lmtp-client-speaks-lmtp: c != nil && c.lmtp && c.conn == conn && len(c.rcpts) == 0
 
 //@ contract NewClientStartTLS(conn, tlsConfig) (c, err)
 //@   prop C10
